@@ -931,6 +931,7 @@ def run(ctx):
                                            probe_regex=lits['probe'], probe_accepts_minus=adf_lex.probe_accepts_minus(lits['probe']),
                                            rewritten=changed)
     ctx.lean_check(['Cherab.Props.C08'], 'Cherab/Audit/C08.lean')
+    ctx.lean_check(['Cherab.Props.C08Cx'], 'Cherab/Audit/C08Cx.lean')
     os.environ['HOME'] = _HOME
     w = World()
     try:
@@ -1510,6 +1511,139 @@ def run_clones(ctx, w, c, text):
     return fails
 
 
+# ------------------------------------------------------------------------------------------------ thermal-CX 2D -> 3D converter
+def cx3d_stream(ctx):
+    """K + S: install.py::_thermalcx_adf15_2dto3d_converter against the Lean `cx2dto3d` (Model/AdfCx.lean) on generated nested
+    dictionaries rates[element][charge][transition] = {ne, te, rate}: mostly tables whose shape matches their grids, about a
+    third with a row / column count that does not (incl. the length-1 axes numpy broadcasts).  Malformed shapes keep >= 1 density
+    and >= 1 row (a (0, c) array has no list representation in the model)."""
+    from cherab.core.atomic import hydrogen, helium, carbon, neon, nitrogen, beryllium
+    from cherab.openadas import install as I
+    rng = ctx.rng
+    pool = [helium, carbon, neon, nitrogen, beryllium, hydrogen]
+    cases = []
+    for n in range(ctx.n(60, 600)):
+        els = rng.sample(pool, rng.choice([1, 1, 2, 3]))
+        all_valid = rng.random() < 0.6
+        rates, toks, bad, lone = {}, ['cx3d', str(len(els))], False, False
+        sizes = []
+        for ie, el in enumerate(els):
+            charges = rng.sample(range(0, 12), rng.choice([1, 1, 2, 3]))
+            toks += ['E%d' % ie, str(len(charges))]
+            rates[el] = {}
+            for q in charges:
+                ntr = rng.choice([1, 1, 2, 4])
+                toks += [str(q), str(ntr)]
+                rates[el][q] = {}
+                for it in range(ntr):
+                    tr = (rng.randint(2, 12), rng.randint(1, 11)) if rng.random() < 0.5 else ('1s2 %dp1 2P%d.5' % (it + 2, it), '1s2 2s1 2S0.5')
+                    while tr in rates[el][q]:
+                        tr = (tr[0], str(tr[1]) + "'")
+                    valid = all_valid or rng.random() < 0.5
+                    nNe = rng.choice([0, 1, 1, 2, 3, 5, 8, 9]) if valid else rng.choice([1, 2, 3, 5])
+                    nTe = rng.choice([0, 1, 1, 2, 3, 6, 7, 11]) if valid else rng.choice([1, 2, 4, 7])
+                    rows, cols = nNe, nTe
+                    if not valid:
+                        which = rng.choice(['rows', 'cols', 'both'])
+                        if which in ('rows', 'both'):
+                            rows = rng.choice([1, nNe + 1, max(1, nNe - 1), 2 * nNe])
+                        if which in ('cols', 'both'):
+                            cols = rng.choice([0, 1, nTe + 1, max(0, nTe - 1), 2 * nTe])
+                    ne = [float('%.6e' % (10 ** rng.uniform(13, 21))) for _ in range(nNe)]
+                    te = [float('%.6e' % (10 ** rng.uniform(-1, 4))) for _ in range(nTe)]
+                    rate = np.array([[float('%.6e' % (10 ** rng.uniform(-20, -12))) for _ in range(cols)] for _ in range(rows)],
+                                    dtype=float).reshape(rows, cols)
+                    rates[el][q][tr] = {'ne': np.array(ne), 'te': np.array(te), 'rate': rate}
+                    toks += ['T%d' % it, str(nNe), str(nTe), str(rows), str(cols)] + [repr(x) for x in ne] + [repr(x) for x in te] \
+                        + [repr(float(x)) for x in rate.ravel()]
+                    bad = bad or (rows != nNe and rows != 1) or (cols != nTe and cols != 1)
+                    lone = lone or (rows != nNe and rows == 1) or (cols != nTe and cols == 1)
+                    sizes.append((nNe, nTe, rows, cols))
+        cases.append(dict(rates=rates, els=els, line=' '.join(toks), bad=bad, lone=lone, sizes=tuple(sizes)))
+    outs = ctx.driver([c['line'] for c in cases])
+    seen = set()
+    for c, m in zip(cases, outs):
+        rates, els = c['rates'], c['els']
+        snapshot = {el: {q: {tr: {k: np.array(v) for k, v in r.items()} for tr, r in trs.items()} for q, trs in chs.items()} for el, chs in rates.items()}
+        st, got = call(I._thermalcx_adf15_2dto3d_converter, rates)
+        cls = 'malformed' if c['bad'] else ('length-1-axis' if c['lone'] else 'well-shaped')
+        ctx.count('cx3d:' + cls)
+        ctx.case(key=('cx3d', cls, c['sizes'][:3]), sample=dict(line=c['line'][:300], model=m[:300]) if cls not in seen else None)
+        seen.add(cls)
+        ctx.traces += 1
+        d = None
+        if st != 'ok':
+            real = 'err ' + st
+            if m != real:
+                d = 'implementation raised %s (%s), model: %s' % (st, got, m[:120])
+        elif not m.startswith('ok hydrogen 0 '):
+            d = 'implementation returned, model: %s' % m[:120]
+        else:
+            ents = [e.split(';') for e in m[len('ok hydrogen 0 '):].split('!')] if m[len('ok hydrogen 0 '):] else []
+            flat = []
+            if list(got.keys()) != [hydrogen] or list(got[hydrogen].keys()) != [0]:
+                d = 'donor keys %r' % ([(k, list(v.keys())) for k, v in got.items()],)
+            else:
+                for el, chs in got[hydrogen][0].items():
+                    for q, trs in chs.items():
+                        for tr, r3 in trs.items():
+                            flat.append((el, q, tr, r3))
+                # the model's keys in the order of the input dictionary
+                keys = [(el, q, tr) for el in els for q in rates[el] for tr in rates[el][q]]
+                if len(flat) != len(ents) or len(keys) != len(ents):
+                    d = 'entry count: implementation %d, model %d' % (len(flat), len(ents))
+                for (el, q, tr, r3), e, (el0, q0, tr0) in zip(flat, ents, keys):
+                    if d:
+                        break
+                    if el is not el0 or tr != tr0 or e[0] != 'E%d' % els.index(el0) or int(e[1]) != q or not e[2].startswith('T'):
+                        d = 'keys: implementation (%s, %r, %r), model %s' % (el.name, q, tr, ';'.join(e[:3]))
+                        break
+                    f = dict(x.split(':', 1) for x in e[3:])
+                    vecf = lambda t: [float(x) for x in t.split(',')] if t else []
+                    mr = [[vecf(cell) for cell in row.split('/')] if row else [] for row in f['rate'].split('|')] if f['rate'] or len(vecf(f['ne'])) else []
+                    if sorted(r3.keys()) != ['ne', 'rate', 'td', 'te']:
+                        d = 'fields %r' % sorted(r3.keys())
+                    elif list(r3['ne']) != vecf(f['ne']) or list(r3['te']) != vecf(f['te']) or list(r3['td']) != vecf(f['td']):
+                        d = 'grids of %r differ: td %r / %s' % (tr, list(r3['td']), f['td'])
+                    elif r3['rate'].shape != (len(vecf(f['ne'])), len(vecf(f['te'])), 2):
+                        d = 'shape %r' % (r3['rate'].shape,)
+                    elif r3['rate'].size and r3['rate'].tolist() != mr:
+                        d = 'table of %r differs' % (tr,)
+        if d:
+            ctx.disagreements += 1
+            ctx.broke('correspondence', 'C08 thermal-CX 2D->3D converter (%s)' % cls, dict(detail=d, line=c['line'][:2000]))
+        # S: the property on the implementation alone, for tables whose shape matches their grids
+        if cls == 'well-shaped':
+            why = None
+            if st != 'ok':
+                why = 'raised %s on well-shaped tables: %s' % (st, got)
+            else:
+                for el in els:
+                    for q, trs in snapshot[el].items():
+                        for tr, r in trs.items():
+                            try:
+                                r3 = got
+                                for kk in (hydrogen, 0, el, q + 1, tr):      # RecursiveDict would create a missing key
+                                    if not isinstance(r3, dict) or kk not in r3:
+                                        raise KeyError(kk)
+                                    r3 = r3[kk]
+                                a = np.asarray(r3['rate'])
+                                ok = (a.shape == r['rate'].shape + (2,) and all(np.array_equal(a[:, :, k], r['rate']) for k in (0, 1))
+                                      and np.array_equal(r3['ne'], r['ne']) and np.array_equal(r3['te'], r['te']))
+                            except Exception as ex:  # noqa
+                                ok, why = False, 'entry [hydrogen][0][%s][%d][%r] missing (%s)' % (el.name, q + 1, tr, type(ex).__name__)
+                            if not ok:
+                                why = why or 'entry [hydrogen][0][%s][%d][%r] is not the parsed table repeated along the donor temperature' % (el.name, q + 1, tr)
+                n_in = sum(len(t) for el in els for t in snapshot[el].values())
+                n_out = sum(len(t) for chs in got.get(hydrogen, {}).get(0, {}).values() for t in chs.values()) if not why else n_in
+                if n_in != n_out:
+                    why = 'converted dictionary holds %d entries for %d parsed transitions' % (n_out, n_in)
+            if why:
+                cat = ('raised-' + st if st != 'ok' else 'entry-missing-under-charge-plus-one' if 'missing' in why else
+                       'entry-count' if 'holds' in why else 'table-not-repeated-unchanged')
+                ctx.fail('C08:thermalcx-2dto3d-converter:' + cat, why, dict(line=c['line'][:4000]))
+
+
 def check_tags(ctx):
     """the model's conversion / charge tables against the tables this module uses for its own oracle"""
     out = ctx.driver(['tags'])[0]
@@ -1606,6 +1740,7 @@ def _streams(ctx, w):
                 ctx.fail(sig, why, dict(case=c['desc'], file=text_of(o)))
         _bundles(ctx, w, bundles, bouts)
         _cases(ctx, w, cases, outs)
+        cx3d_stream(ctx)
     finally:
         urllib.request.urlretrieve = real
     if stub.unexpected:
